@@ -75,6 +75,11 @@ func BinaryIntFunction(name string) ZlispUserFunction {
 			op = Modulo
 		}
 
+		var err error
+		args, err = env.SubstituteRHS(args)
+		if err != nil {
+			return SexpNull, err
+		}
 		return IntegerDo(op, args[0], args[1])
 	}
 }
@@ -95,8 +100,12 @@ func BitwiseFunction(name string) ZlispUserFunction {
 			op = BitXor
 		}
 
-		accum := args[0]
 		var err error
+		args, err = env.SubstituteRHS(args)
+		if err != nil {
+			return SexpNull, err
+		}
+		accum := args[0]
 
 		for _, expr := range args[1:] {
 			accum, err = IntegerDo(op, accum, expr)
@@ -912,7 +921,11 @@ func NotFunction(env *Zlisp, name string, args []Sexp) (Sexp, error) {
 		return SexpNull, WrongNargs
 	}
 
-	result := &SexpBool{Val: !IsTruthy(args[0])}
+	arg, err := env.RValue(args[0])
+	if err != nil {
+		return SexpNull, err
+	}
+	result := &SexpBool{Val: !IsTruthy(arg)}
 	return result, nil
 }
 
